@@ -45,7 +45,7 @@ def dump_states(module, cfg, var="s", limit=None, workers=4, timeout=1200):
     shutil.rmtree(wd, ignore_errors=True)
     seen, out = set(), []
     for st in states:
-        v = st.get(var)
+        v = st.get(var) if var else st
         k = repr(v)
         if k in seen:
             continue
